@@ -7,6 +7,7 @@ import (
 	"context"
 	"errors"
 	"fmt"
+	"io"
 	"reflect"
 	"runtime"
 	"sort"
@@ -758,6 +759,20 @@ func ToTree(v reflect.Value) any {
 	case reflect.Struct:
 		if tm, ok := v.Interface().(time.Time); ok {
 			return tm.Format(time.RFC3339Nano)
+		}
+		if up, ok := v.Interface().(graphql.Upload); ok {
+			// read the file to its end through this Upload's own reader
+			out := map[string]any{"filename": up.Filename, "size": up.Size, "contentType": up.ContentType}
+			if up.File == nil {
+				out["content"] = nil
+			} else {
+				b, err := io.ReadAll(up.File)
+				out["content"] = string(b)
+				if err != nil {
+					out["readError"] = err.Error()
+				}
+			}
+			return out
 		}
 		out := map[string]any{}
 		for i := 0; i < t.NumField(); i++ {
